@@ -3,6 +3,7 @@
 Cases (JSON):
   {"k":"iso","f":[y,m,d,h,mi,s],"form":0|1|2,"sep":"T"|" ","frac":"digits","suf":[...],"bytes":bool}
         form 0 = seconds, 1 = minutes, 2 = date only; suf = ["none"] | ["Z"] | ["+"|"-", colon?, hh, mm]
+  {"k":"sweep","o":ordinal,"v":0..3}       one (day, variant) of the exhaustive 400-year sweep; stands for the "iso" case _norm() computes
   {"k":"int","n":int,"ty":"int"|"np.int64"}
   {"k":"float","x":float.hex()|"nan"|"inf"|"-inf","ty":"float"|"np.float64"}
   {"k":"text","s":str}                      arbitrary text (may be all digits)
@@ -14,6 +15,7 @@ Cases (JSON):
   {"k":"lib_fromts","n":int} {"k":"lib_int","s":str} {"k":"lib_utf8","b":hex}
         the modelled CPython functions on their own (no property oracle, correspondence only)
 Observation of a parse case: {"iso": r, "ts": r, "date": r, "time": r} with
+  (stored as {"iso": r, "casts": "agree"} when the three casts are exactly the values derived from r)
   r = ["none"] | ["dt",[y,m,d,h,mi,s,us]] | ["d",[y,m,d]] | ["t",[h,mi,s,us]] | ["raise",cls] | ["weird",type]
 """
 import ast
@@ -197,6 +199,37 @@ def _suffix_text(suf):
     return "%s%02d%s%02d" % (sign, oh, ":" if colon else "", om)
 
 
+_SUFS = [["none"], ["Z"], ["+", True, 1, 0], ["+", False, 8, 0], ["-", True, 5, 0], ["-", False, 9, 30]]
+
+
+def _norm(case):
+    """A sweep case {"k":"sweep","o":ordinal,"v":0..3} stands for the ISO case computed here."""
+    if case["k"] != "sweep":
+        return case
+    o, v = case["o"], case["v"]
+    dd = datetime.date.fromordinal(o)
+    h = (o * 7919) % 86400
+    f = [dd.year, dd.month, dd.day, h // 3600, (h // 60) % 60, h % 60]
+    if v == 0:
+        return {"k": "iso", "f": f, "form": 0, "sep": "T", "frac": "", "suf": _SUFS[o % 6], "bytes": False, "sweep": True}
+    if v == 1:
+        return {"k": "iso", "f": f, "form": 0, "sep": " ", "frac": "%06d" % ((o * 104729) % 1000000), "suf": _SUFS[(o + 1) % 6], "bytes": o % 2 == 0, "sweep": True}
+    if v == 2:
+        return {"k": "iso", "f": f, "form": 1, "sep": "T" if o % 2 else " ", "frac": "", "suf": _SUFS[(o + 2) % 6], "bytes": False, "sweep": True}
+    return {"k": "iso", "f": f, "form": 2, "sep": "T", "frac": "", "suf": _SUFS[o % 4], "bytes": o % 3 == 0, "sweep": True}
+
+
+def _full(obs):
+    """Observations whose three casts are exactly the values derived from parse_iso's result are stored compactly."""
+    if isinstance(obs, dict) and obs.get("casts") == "agree":
+        r = obs["iso"]
+        out = dict(obs)
+        del out["casts"]
+        out.update({"ts": r, "date": ["d", r[1][:3]], "time": ["t", r[1][3:]]})
+        return out
+    return obs
+
+
 def iso_text(case):
     y, m, d, h, mi, s = case["f"]
     form = case["form"]
@@ -335,6 +368,7 @@ def _res(fn, x, kind):
 
 
 def observe(case):
+    case = _norm(case)
     k = case["k"]
     if k == "lib_fromts":
         n = int(case["n"])
@@ -358,12 +392,20 @@ def observe(case):
     from orso.tools import parse_iso
     from orso.types import OrsoTypes
 
+    if k == "iso":
+        v0 = build_value(case)  # str / bytes: immutable, one object serves the four calls
+        mk = lambda: v0
+    else:
+        mk = lambda: build_value(case)
     obs = {
-        "iso": _res(parse_iso, build_value(case), "dt"),
-        "ts": _res(OrsoTypes.TIMESTAMP.parse, build_value(case), "dt"),
-        "date": _res(OrsoTypes.DATE.parse, build_value(case), "d"),
-        "time": _res(OrsoTypes.TIME.parse, build_value(case), "t"),
+        "iso": _res(parse_iso, mk(), "dt"),
+        "ts": _res(OrsoTypes.TIMESTAMP.parse, mk(), "dt"),
+        "date": _res(OrsoTypes.DATE.parse, mk(), "d"),
+        "time": _res(OrsoTypes.TIME.parse, mk(), "t"),
     }
+    r = obs["iso"]
+    if r[0] == "dt" and obs["ts"] == r and obs["date"] == ["d", r[1][:3]] and obs["time"] == ["t", r[1][3:]]:
+        obs = {"iso": r, "casts": "agree"}
     if k == "dt64" and not case.get("nat"):
         import warnings
 
@@ -475,6 +517,7 @@ def _text_oracle(s, r):
 
 
 def oracle(case, obs):
+    case, obs = _norm(case), _full(obs)
     k = case["k"]
     if k.startswith("lib_"):
         return None
@@ -563,6 +606,9 @@ def oracle(case, obs):
 
 # --------------------------------------------------------------------------- known findings (candidate)
 def known(case, obs):
+    if case["k"] in ("sweep", "iso"):
+        return None
+    obs = _full(obs)
     k = case["k"]
     if k == "float" and case["x"] not in ("nan", "inf", "-inf"):
         f = float.fromhex(case["x"])
@@ -709,6 +755,7 @@ def value_term(case, obs):
 
 
 def to_coq(case, obs):
+    case, obs = _norm(case), _full(obs)
     k = case["k"]
     if k == "lib_fromts":
         return ("fromts", "(%s, (%s : result dt))" % (_z(case["n"]), _r_plain(obs)))
@@ -753,6 +800,8 @@ def to_coq(case, obs):
 
 # --------------------------------------------------------------------------- bookkeeping
 def nontrivial_key(case, obs):
+    if case["k"] == "sweep":
+        return (case["o"], case["v"])
     k = case["k"]
     if k.startswith("lib_"):
         return None
@@ -760,6 +809,7 @@ def nontrivial_key(case, obs):
 
 
 def classify(case, obs):
+    case, obs = _norm(case), _full(obs)
     k = case["k"]
     yield "kind:" + k
     if k.startswith("lib_"):
@@ -894,6 +944,16 @@ def _rand_digits(rng):
 
 
 def _mutate(rng, s):
+    r0 = rng.random()
+    if r0 < 0.25 and len(s) >= 10:
+        # aim at the structural positions and the ends
+        i = rng.choice([4, 7, 10, 13, 16, 19, len(s) - 1, len(s) - 3, len(s) - 5, len(s) - 6])
+        if i < len(s):
+            return s[:i] + rng.choice(_ALPHABET + "zZ-+:") + s[i + 1:]
+    if r0 < 0.35:
+        return s + rng.choice(_ALPHABET + "zZ")
+    if r0 < 0.40:
+        return rng.choice(_ALPHABET + "zZ") + s
     s = list(s)
     for _ in range(rng.choice([1, 1, 1, 2, 3])):
         r = rng.random()
@@ -925,6 +985,7 @@ _FIXED_TEXTS = [
     "9" * 4300, "9" * 4301, "0" * 4301, "0" * 4300, "0" * 4290 + "1234567890", "²", "12²", "١٢٣", " 123", "12 3", "1_000", "+123", "-123", "1.5", "1e5", "0x10", "١٢٣4567890",
     "2020-01-01T10:00:00\x00", "20\ud80020-01-01", "2020-01-01T1_:00:00", "2020-01-01T+1:00:00", "2020-01-01T 1: 1: 1", "    -  -  ", "----------",
     "2020-01-01T10:00:00+", "+2020-01-01T10:00:00", "2020-01-01T10:00:00.123+05:00:00", "2020-01-01T10:00:00,5", "2020-W01-1", "2020-001", "20200101",
+    "2020-01-01z", "2020-01-01T10:00z", "2020-01-01T10:00:00z", "2020-01-01T10:00:00.5z", "2020-01-01T10:00 Z", "2020-01-01T10:00ZZ", "2020-01-01 Z",
     "20200101T100000", "2020-01-01T10", "2020-01-01T1000", "2020-01-01T10:00:00-05", "2020-01-01T10:00:00 -05:00", "12:00:00", "1970-01-01T00:00:00Z",
 ]
 
@@ -1072,15 +1133,9 @@ def exhaustive(tier):
     last = datetime.date(y0 + 399, 12, 31).toordinal()
 
     def it():
-        sufs = [["none"], ["Z"], ["+", True, 1, 0], ["+", False, 8, 0], ["-", True, 5, 0], ["-", False, 9, 30]]
         for o in range(first, last + 1):
-            dd = datetime.date.fromordinal(o)
-            h = (o * 7919) % 86400
-            f = [dd.year, dd.month, dd.day, h // 3600, (h // 60) % 60, h % 60]
-            yield {"k": "iso", "f": f, "form": 0, "sep": "T", "frac": "", "suf": sufs[o % 6], "bytes": False, "sweep": True}
-            yield {"k": "iso", "f": f, "form": 0, "sep": " ", "frac": "%06d" % ((o * 104729) % 1000000), "suf": sufs[(o + 1) % 6], "bytes": o % 2 == 0, "sweep": True}
-            yield {"k": "iso", "f": f, "form": 1, "sep": "T" if o % 2 else " ", "frac": "", "suf": sufs[(o + 2) % 6], "bytes": False, "sweep": True}
-            yield {"k": "iso", "f": f, "form": 2, "sep": "T", "frac": "", "suf": sufs[o % 4], "bytes": o % 3 == 0, "sweep": True}
+            for v in range(4):
+                yield {"k": "sweep", "o": o, "v": v}
 
     return it(), "every day of the 400 years %04d-01-01..%04d-12-31 x 4 variants (seconds+T, seconds+space+microseconds, minute form, date only), suffix cycling over all six" % (y0, y0 + 399)
 
@@ -1109,6 +1164,11 @@ def search(rng):
 
 
 def shrink(case):
+    if case["k"] == "sweep":
+        c = dict(_norm(case))
+        c.pop("sweep", None)
+        yield c
+        return
     k = case["k"]
     if k == "iso":
         if case["bytes"]:
